@@ -100,6 +100,18 @@ impl SymbolTable {
         self.contexts.pop().unwrap().max_size()
     }
 
+    /// The number of symbols currently defined in the outer-most scope of the global context
+    pub fn checkpoint(&self) -> usize {
+        self.contexts[0].symbols[0].len()
+    }
+
+    /// Returns to the outer-most scope of the global context and forgets all symbols defined after the given checkpoint
+    pub fn rollback(&mut self, checkpoint: usize) {
+        self.contexts.truncate(1);
+        self.contexts[0].symbols.truncate(1);
+        self.contexts[0].symbols[0].truncate(checkpoint);
+    }
+
     /// Whether we are currently inside a local (function) context
     pub fn in_function(&self) -> bool {
         self.contexts.len() > 1
